@@ -1,4 +1,4 @@
-import TypedpyModel.Lemmas.LiftNonNone
+import TypedpyModel.Lemmas.LiftOpt
 namespace Typedpy
 open PyVal (pyEq pyMem pyNodup)
 
